@@ -184,6 +184,8 @@ def uninstall_clock():
 # every Python line of the package under test is a point where Ctrl-C can
 # arrive (code classes' lazy builders, decoders, noise models included)
 TRACED = (REPO,)
+# the batch / simulation layer proper (sampled densely for interrupts)
+CORE = (REPO + 'simulation/', REPO + 'utils.py')
 
 
 def _traced_file(fn):
@@ -198,6 +200,8 @@ class LineTracer:
         self.proc = proc
         self.record = record
         self.where = []
+        self.first = {}      # code object -> index of its first traced line
+        self.core = []       # indices of lines in simulation/ and utils.py
 
     def _global(self, frame, event, arg):
         if _traced_file(frame.f_code.co_filename):
@@ -213,8 +217,10 @@ class LineTracer:
         idx = proc.n_line
         proc.n_line += 1
         if self.record:
-            self.where.append((frame.f_code.co_filename[len(REPO):],
-                               frame.f_lineno))
+            self.first.setdefault(frame.f_code, idx)
+            fn = frame.f_code.co_filename
+            if fn.startswith(CORE[0]) or fn == CORE[1]:
+                self.core.append(idx)
         f = proc.fault
         if f and f.get('at') == 'line' and f.get('event') == idx:
             from .sandbox import arm_next
@@ -223,6 +229,8 @@ class LineTracer:
             proc.fired.append({'kind': f['kind'], 'at': 'line',
                                'event': idx, 'where': loc})
             proc.sim.count_fault(f['kind'] + ':line')
+            if f.get('aim'):
+                proc.sim.probe('interrupt_aimed_at_' + f['aim'])
             proc.sim.log.add(proc.pid, 'line-' + f['kind'], loc)
             if f['kind'] == 'ki':
                 # (CPython unsets the trace function when it raises, so a
